@@ -105,6 +105,34 @@ def install(I):
             return NotImplemented
         return [(top_int(ti[0], ti[1]), st)]
 
+    @model("convert::TryInto::try_into")
+    def try_into(I, st, a, ctx):
+        # &[u8] / &mut [u8] -> [u8; N] (or a reference to one): Ok exactly when the slice has N bytes
+        import re as _re
+        dty = ctx.get("dest_ty") or ""
+        m = _re.match(r"^core::result::Result<&?(?:'\w+ )?(?:mut )?\[u8; (\d+)\],", dty)
+        if not m:
+            return NotImplemented
+        n = int(m.group(1))
+        sv = slice_view(I, st, a[0])
+        if sv is None or not is_int(sv[2]):
+            return NotImplemented
+        loc, start, ln, elems = sv
+        by_ref = dty.startswith("core::result::Result<&")
+        outs = []
+        if ln[4] <= n <= ln[5]:
+            s0 = int_const(start)
+            if by_ref:
+                val = ptr(loc[0], loc[1], loc[2], (start, const(n, 64)), a[0][5] if is_ptr(a[0]) and len(a[0]) > 5 else False)
+            elif elems is not None and s0 is not None and s0 + n <= len(elems):
+                val = arr(list(elems[s0:s0 + n]))
+            else:
+                val = arr([top_int(8) for _k in range(n)])
+            outs.append((ok(val), st.fork()))
+        if not (ln[4] == n == ln[5]):
+            outs.append((err(TOP), st.fork()))
+        return outs
+
     # ---------------- byteorder
     def _rd(I, st, a, ctx, n, big):
         sv = slice_view(I, st, a[0])
